@@ -1,6 +1,7 @@
 (* C14 commands (codes 14000 + sub). Trees and formatters are decoded as for C05. *)
 From Coq Require Import List ZArith NArith Bool.
-From BS Require Import Base.Sexp Base.Types Model.Render Spec.RenderSpec Run.D_C05.
+From BS Require Import Base.Sexp Base.Types Model.Render Model.Reparse Model.SmartQuotes Model.Build Spec.BuildSpec Spec.RenderSpec Spec.RoundTrip Spec.PrettyTokens Run.D_C05.
+From BS Require Model.EntitySubst.
 Import ListNotations.
 Open Scope Z_scope.
 
@@ -23,5 +24,26 @@ Definition disp_c14 (sub : Z) (args : list sexp) : sexp :=
   | 2, f :: enc :: t :: _ => slist s_item (items_spec (gbool enc) (g_fmt f) (g_tree t))
   | 3, f :: enc :: t :: _ => slist sstr (pw_blocks_spec (gbool enc) (g_fmt f) (g_tree t))
   | 4, f :: enc :: lv :: t :: _ => sstr (decode_contents (gbool enc) (g_fmt f) (g_level lv) (g_tree t))
+  (* the pretty rendering as tokens: spelled; read back (events; tree by the documented construction rules) *)
+  | 5, f :: enc :: t :: _ => sstr (concat (map spell (pretty_tokens (gbool enc) (g_fmt f) (g_tree t))))
+  | 6, f :: enc :: chk :: t :: _ =>
+      slist s_bevent (read_tokens read_text EntitySubst.unescape (html_rcfg (gbool chk))
+                        (pretty_tokens (gbool enc) (g_fmt f) (g_tree t)))
+  | 7, f :: enc :: chk :: t :: _ =>
+      slist s_snode (spec_run html_bcfg (read_tokens read_text EntitySubst.unescape (html_rcfg (gbool chk))
+                                           (pretty_tokens (gbool enc) (g_fmt f) (g_tree t))))
+  (* the decorated tree, normalised; and both sides of the whitespace-blind comparison *)
+  | 8, f :: enc :: t :: _ =>
+      slist s_snode (flat_tree html_bcfg (norm (gbool enc) (g_fmt f) html_bcfg
+                                            (pretty_tree read_text (gbool enc) (g_fmt f) html_bcfg (g_tree t))))
+  | 9, f :: enc :: t :: _ =>
+      let fm := g_fmt f in let e := gbool enc in let tr := g_tree t in
+      L [slist s_snode (flat_tree html_bcfg (ws_canon html_bcfg (norm e fm html_bcfg (pretty_tree read_text e fm html_bcfg tr))));
+         slist s_snode (flat_tree html_bcfg (ws_canon html_bcfg (norm e fm html_bcfg tr)))]
+  (* the hypotheses: pretty_ok_top t, representable_top t, representable_top (pretty_tree t) *)
+  | 10, f :: enc :: chk :: t :: _ =>
+      let fm := g_fmt f in let tr := g_tree t in let rc := html_rcfg (gbool chk) in
+      L [sbool (pretty_ok_top fm rc html_bcfg tr); sbool (representable_top fm rc html_bcfg tr);
+         sbool (representable_top fm rc html_bcfg (pretty_tree read_text (gbool enc) fm html_bcfg tr))]
   | _, _ => A (-1)
   end.
